@@ -453,6 +453,7 @@ func (s *scenario) hostileRead(m *rig.Remote) {
 	item := obs.FeedItem{Data: data}
 	if s.r.Chance(0.05) {
 		item.Err = &obs.InjErr{ID: 1}
+		item.NWithErr = s.r.Bool()
 	}
 	s.c.Logf("hostile read-rtp ssrc=%d buf=%d data=%s", m.Opts.SSRC, bufSize, hexw(data))
 	out := s.rg.ReadRTP(m, item, bufSize, 0x55)
@@ -461,7 +462,7 @@ func (s *scenario) hostileRead(m *rig.Remote) {
 	}
 	s.c.Add("hostile_rtp_reads", 1)
 	delivered := min(len(data), bufSize)
-	if item.Err != nil {
+	if item.Err != nil && !item.NWithErr {
 		delivered = 0
 	}
 	s.maxDelivered = max(s.maxDelivered, delivered)
